@@ -60,6 +60,12 @@ pub struct FuncPairing {
     pub ops: Vec<(usize, usize)>,
     /// number of operators compared
     pub compared: usize,
+    /// (offset of the `end` of an input `if` without `else`, offset of the `else` the output has for it):
+    /// the one structural equivalence - walrus always emits an `else`
+    pub alt_ops: Vec<(usize, usize)>,
+    /// pairing of operators under walrus's own liveness (code after `return_call*` kept), offsets only;
+    /// empty if the two streams do not line up
+    pub ops_keep_tail: Vec<(usize, usize)>,
 }
 
 #[derive(Clone, Debug, Default)]
@@ -78,7 +84,17 @@ pub struct Iso {
     pub ops_compared: u64,
 }
 
+/// Marker constant of instructions the harness inserts through the edit API (`i64.const MARKER; drop`).
+pub const MARKER: i64 = 0x4d41_524b_4552_5f5f;
+
+#[derive(Clone, Debug, Default)]
+pub struct IsoOpts {
+    /// ignore `i64.const MARKER; drop` pairs in the output (instructions inserted by a transformation)
+    pub skip_output_markers: bool,
+}
+
 struct Ctx<'m, 'a> {
+    opts: IsoOpts,
     a: &'m DModule<'a>,
     b: &'m DModule<'a>,
     iso: Iso,
@@ -164,7 +180,22 @@ impl<'m, 'a> Ctx<'m, 'a> {
             _ => return,
         };
         let na: Vec<NOp> = normalise(&ba.ops);
-        let nb: Vec<NOp> = normalise(&bb.ops);
+        let mut nb: Vec<NOp> = normalise(&bb.ops);
+        if self.opts.skip_output_markers {
+            let mut filtered = Vec::with_capacity(nb.len());
+            let mut i = 0;
+            while i < nb.len() {
+                let is_marker = matches!(&nb[i].kind, NKind::Op(wasmparser::Operator::I64Const { value }) if *value == MARKER)
+                    && matches!(nb.get(i + 1).map(|o| &o.kind), Some(NKind::Op(wasmparser::Operator::Drop)));
+                if is_marker {
+                    i += 2;
+                } else {
+                    filtered.push(nb[i].clone());
+                    i += 1;
+                }
+            }
+            nb = filtered;
+        }
         let nparams = self.a.sig_of_func(fa).map(|s| s.params.len()).unwrap_or(0) as u32;
         let mut lfwd: HashMap<u32, u32> = HashMap::new();
         let mut lrev: HashMap<u32, u32> = HashMap::new();
@@ -186,7 +217,10 @@ impl<'m, 'a> Ctx<'m, 'a> {
             self.iso.ops_compared += 1;
             let (ox, oy) = match (&x.kind, &y.kind) {
                 (NKind::SyntheticElse, NKind::SyntheticElse) => continue,
-                (NKind::SyntheticElse, NKind::Op(wasmparser::Operator::Else)) => continue,
+                (NKind::SyntheticElse, NKind::Op(wasmparser::Operator::Else)) => {
+                    pairing.alt_ops.push((x.offset, y.offset));
+                    continue;
+                }
                 (NKind::Op(wasmparser::Operator::Else), NKind::SyntheticElse) => continue,
                 (NKind::Op(a), NKind::Op(b)) => (a, b),
                 _ => {
@@ -260,6 +294,34 @@ impl<'m, 'a> Ctx<'m, 'a> {
                         if p != q {
                             self.problem("code", format!("{}/{}-differs", info.name, name), format!("{}: immediate {} {:?} became {:?}", site, name, p, q));
                         }
+                    }
+                }
+            }
+        }
+        // offsets under walrus's liveness (it keeps code after return_call*)
+        {
+            use crate::norm::normalise_with;
+            let wa = normalise_with(&ba.ops, false);
+            let mut wb = normalise_with(&bb.ops, false);
+            if self.opts.skip_output_markers {
+                let mut filtered = Vec::with_capacity(wb.len());
+                let mut i = 0;
+                while i < wb.len() {
+                    let is_marker = matches!(&wb[i].kind, NKind::Op(wasmparser::Operator::I64Const { value }) if *value == MARKER)
+                        && matches!(wb.get(i + 1).map(|o| &o.kind), Some(NKind::Op(wasmparser::Operator::Drop)));
+                    if is_marker {
+                        i += 2;
+                    } else {
+                        filtered.push(wb[i].clone());
+                        i += 1;
+                    }
+                }
+                wb = filtered;
+            }
+            if wa.len() == wb.len() && wa.iter().zip(wb.iter()).all(|(x, y)| same_kind(x, y)) {
+                for (x, y) in wa.iter().zip(wb.iter()) {
+                    if let (NKind::Op(_), NKind::Op(_)) = (&x.kind, &y.kind) {
+                        pairing.ops_keep_tail.push((x.offset, y.offset));
                     }
                 }
             }
@@ -371,7 +433,7 @@ fn same_kind(x: &NOp, y: &NOp) -> bool {
 }
 
 /// Shape of a function body with entity operands erased (for pairing entities no root reaches).
-fn body_shape(m: &DModule, f: u32, loose: bool) -> u64 {
+fn body_shape(m: &DModule, f: u32, loose: bool, skip_markers: bool) -> u64 {
     let mut h: u64 = 0xcbf29ce484222325;
     let mut mix = |x: u64| {
         h ^= x;
@@ -381,8 +443,22 @@ fn body_shape(m: &DModule, f: u32, loose: bool) -> u64 {
         mix(wv_gen::rng::fnv64(sig_str(s).as_bytes()));
     }
     if let Some(b) = &m.funcs[f as usize].body {
-        for o in normalise(&b.ops) {
+        let nops = normalise(&b.ops);
+        let mut skip_next_drop = false;
+        for (oi, o) in nops.iter().enumerate() {
             if let NKind::Op(op) = &o.kind {
+                if skip_markers {
+                    if skip_next_drop && matches!(op, wasmparser::Operator::Drop) {
+                        skip_next_drop = false;
+                        continue;
+                    }
+                    if matches!(op, wasmparser::Operator::I64Const { value } if *value == MARKER)
+                        && matches!(nops.get(oi + 1).map(|x| &x.kind), Some(NKind::Op(wasmparser::Operator::Drop)))
+                    {
+                        skip_next_drop = true;
+                        continue;
+                    }
+                }
                 if matches!(op, wasmparser::Operator::Else) {
                     // an input `if` without `else` gets a synthetic one; real and synthetic must hash alike
                     continue;
@@ -414,7 +490,12 @@ fn body_shape(m: &DModule, f: u32, loose: bool) -> u64 {
 /// input is expected in the output (GC): list-shaped spaces (imports,
 /// exports, segments) are filtered by it.
 pub fn compare<'m, 'a>(input: &'m DModule<'a>, output: &'m DModule<'a>, keep: Option<&Keep>) -> Iso {
+    compare_opts(input, output, keep, IsoOpts::default())
+}
+
+pub fn compare_opts<'m, 'a>(input: &'m DModule<'a>, output: &'m DModule<'a>, keep: Option<&Keep>, opts: IsoOpts) -> Iso {
     let mut c = Ctx {
+        opts,
         a: input,
         b: output,
         iso: Iso {
@@ -594,11 +675,12 @@ pub fn compare<'m, 'a>(input: &'m DModule<'a>, output: &'m DModule<'a>, keep: Op
         let ub: Vec<u32> = (0..output.funcs.len() as u32).filter(|i| c.iso.funcs.get_rev(*i).is_none()).collect();
         let x = ua[0];
         let same_kind = |y: &&u32| input.funcs[x as usize].import.is_some() == output.funcs[**y as usize].import.is_some();
-        let hx = body_shape(input, x, false);
-        let mut found = ub.iter().filter(same_kind).find(|y| body_shape(output, **y, false) == hx).copied();
+        let sm = c.opts.skip_output_markers;
+        let hx = body_shape(input, x, false, sm);
+        let mut found = ub.iter().filter(same_kind).find(|y| body_shape(output, **y, false, sm) == hx).copied();
         if found.is_none() {
-            let lx = body_shape(input, x, true);
-            found = ub.iter().filter(same_kind).find(|y| body_shape(output, **y, true) == lx).copied();
+            let lx = body_shape(input, x, true, sm);
+            found = ub.iter().filter(same_kind).find(|y| body_shape(output, **y, true, sm) == lx).copied();
         }
         match found {
             Some(y) => {
